@@ -80,13 +80,17 @@ impl<'p> W<'p> {
                         used.push(*v);
                     }
                 });
-                // ... except the parameters of a function literal that IS the initialiser: `f :: fn f do … f … end`
-                // is well defined (the parameter is the innermost declaration) unless the body also calls the function
+                // ... when the initialiser IS a function literal (its name is declared first, so that it can call
+                // itself); the parameters of that literal are exempt: `f :: fn f do … f … end` is well defined (the
+                // parameter is the innermost declaration) unless the body also calls the function.
+                // Any other initialiser is resolved before the new name exists: `n := g(fn … end, n)` reads the
+                // outer `n`, so the new variable may take the name of one its initialiser reads.
                 let self_used = used.contains(b);
-                let own_params: Vec<BId> = if let Expr::Lambda(fd) = init { fd.params.clone() } else { Vec::new() };
-                for u in used {
-                    if u != *b && (self_used || !own_params.contains(&u)) {
-                        self.a.conflicts.insert(pair(*b, u));
+                if let Expr::Lambda(fd) = init {
+                    for u in used {
+                        if u != *b && (self_used || !fd.params.contains(&u)) {
+                            self.a.conflicts.insert(pair(*b, u));
+                        }
                     }
                 }
                 self.expr(init);
